@@ -115,6 +115,18 @@ def oracle(ck, tier, deep):
         if X[oo] != 0 or Y[oo] != 0 or X[oo[0], min(cols - 1, oo[1] + 1)] < 0 or (oo[0] > 0 and Y[oo[0] - 1, oo[1]] != 1):
             ck.violation(dict(site="index_coords", clause="origin"), dict(shape=[rows, cols], origin=list(o)),
                          "(0,0) is not at the requested origin, or the axes do not point right/up")
+    # the pole may lie on or beyond the last row / column, at fractional positions too: x = col − ox, y = oy − row everywhere
+    for _ in range(n // 3):
+        rows, cols = (int(v) for v in rng.integers(2, 30, size=2))
+        o = (float(rng.uniform(-rows, 2.5 * rows)), float(rng.uniform(-cols, 2.5 * cols)))
+        if rng.random() < 0.5:
+            o = (float(np.round(o[0])), float(np.round(o[1])))
+        ck.count(("S.idx-any", o[0] >= rows, o[1] >= cols, o[0] == round(o[0])), suite="S.coords")
+        X, Y = polar.index_coords(np.zeros((rows, cols)), origin=o)
+        oy, ox = (o[0] + rows if o[0] < 0 else o[0]), (o[1] + cols if o[1] < 0 else o[1])
+        if np.abs(X - (np.arange(cols)[None, :] - ox)).max() > 1e-12 or np.abs(Y - (oy - np.arange(rows)[:, None])).max() > 1e-12:
+            ck.violation(dict(site="index_coords", clause="origin"), dict(shape=[rows, cols], origin=list(o)),
+                         "coordinates are not (col − origin_x, origin_y − row) for this origin")
     # reproject_image_into_polar asks the resampler for exactly the polar positions (resampler replaced by a recorder)
     for _ in range(40 if not deep else 300):
         rows, cols = (int(v) for v in rng.integers(3, 40, size=2))
@@ -172,6 +184,10 @@ def oracle(ck, tier, deep):
             ck.violation(dict(site="radial_intensity", clause="conserves-total"), rep, f"integral of int2D {est:.6g} vs image sum {tot:.6g}")
         wrappers = {"int2D": vmi.angular_integration_2D, "int3D": vmi.angular_integration_3D, "avg2D": vmi.average_radial_intensity_2D,
                     "avg3D": vmi.average_radial_intensity_3D}
+        for k, wf in wrappers.items():           # the four named wrappers are radial_intensity(kind, …) with the same origin / dr / dt
+            wr = quiet(wf, im, origin=o, dr=dr)
+            if not (np.array_equal(wr[0], res[k][0]) and np.array_equal(wr[1], res[k][1])):
+                ck.violation(dict(site=wf.__name__, clause="wrapper"), rep, f"{wf.__name__}(origin={o}, dr={dr}) differs from radial_intensity('{k}', …)")
     # toPES conservation
     for _ in range(40 if not deep else 400):
         K = int(rng.integers(20, 200))
@@ -183,7 +199,12 @@ def oracle(ck, tier, deep):
         pe = None if rng.random() < 0.5 else float(c * radial[-1] ** 2 * 1.5)
         vrep = None if rng.random() < 0.6 else -float(rng.uniform(100, 3000))
         ck.count(("S.topes", K % 5, dr, pe is None, vrep is None), suite="S.toPES")
-        E, P = vmi.toPES(radial, inten.copy(), c, photon_energy=pe, Vrep=vrep)
+        keep = inten.copy()
+        vmi.toPES(radial, inten, c)                      # a first conversion of the same profile (another calibration) …
+        E, P = vmi.toPES(radial, inten, c, photon_energy=pe, Vrep=vrep)          # … must not have consumed it
+        if not np.array_equal(inten, keep):
+            ck.violation(dict(site="toPES", clause="argument-modified"), dict(K=K, dr=dr, c=c), "toPES modified the intensity array passed to it")
+            inten = keep
         lhs = np.sum((P[1:] + P[:-1]) / 2 * np.diff(E))
         rhs = np.sum((inten[1:] + inten[:-1]) / 2 * np.diff(radial))
         if abs(abs(lhs) - rhs) > 1e-12 * rhs:
